@@ -5,6 +5,7 @@ import Proofs.C10Nts
 import Proofs.C10NtsNodup
 import Proofs.C10NtsSpec
 import Proofs.C10SpecDedup
+import Proofs.C10NtsLookup
 /-!
 # C10 — replica sets for a token equal Cassandra's placement  (property theorems)
 
@@ -20,7 +21,7 @@ any number of tokens per node, datacenters, racks, replication factors incl. 0 /
 to the ring.  The old failing inputs are kept as regression `example`s at the end.
 -/
 namespace C10
-open Placement C10Lookup C10Simple C10Nts C10NtsNodup C10NtsSpec C10SpecDedup
+open Placement C10Lookup C10Simple C10Nts C10NtsNodup C10NtsSpec C10SpecDedup C10NtsLookup
 
 /-! ## ring lookup -/
 
@@ -273,17 +274,6 @@ theorem C10_nts_bound_total (rfs : List (Nat × Nat)) (tokens : List Entry)
 
 /-! ## NetworkTopologyStrategy: the code = Cassandra, for every ring -/
 
-theorem ownerIdx_self (ring : List Entry) (hs : Sorted ring) (i : Nat) (hi : i < ring.length) :
-    Spec.ownerIdx ring (ring[i].1) = i := by
-  unfold Spec.ownerIdx
-  have : ring.findIdx (fun e => decide (ring[i].1 ≤ e.1)) = i := by
-    rw [List.findIdx_eq hi]
-    refine ⟨by simp, ?_⟩
-    intro j hji
-    have := (List.pairwise_iff_getElem.mp hs) j i (by omega) hi hji
-    simp only [decide_eq_false_iff_not]; omega
-  rw [this, if_pos hi]
-
 theorem nodup_foldl_setAdd {α : Type} [DecidableEq α] (l : List α) : ∀ (acc : List α), acc.Nodup →
     (l.foldl setAdd acc).Nodup := by
   induction l with
@@ -344,6 +334,59 @@ theorem C10_nts_equal (rfs : List (Nat × Nat)) (ring : List Entry) (hs : Sorted
     (env_of rfs ring hkeys p.1) (good_init _) j_init (sim_init _)
 
 example : Spec.nts [(0, ⟨1, 1, 1⟩), (10, ⟨2, 1, 1⟩), (20, ⟨3, 1, 2⟩)] [(1, 2)] 0 = [⟨1, 1, 1⟩, ⟨3, 1, 2⟩] := by decide
+
+/-! ## the whole replica map and the lookup of an arbitrary token -/
+
+theorem indexed_map_snd {α : Type} (l : List α) : (indexed l).map (·.2) = l := by
+  unfold indexed
+  exact List.map_snd_zip (by simp)
+
+/-- `C10_nts_map`: for every sorted ring and rf map, `networkTopology.replicaMap` returns — without panic — exactly
+the map that has, for every ring token whose primary's datacenter is replicated, Cassandra's replicas of that token. -/
+theorem C10_nts_map (rfs : List (Nat × Nat)) (ring : List Entry) (hs : Sorted ring) (hkeys : (rfs.map (·.1)).Nodup) :
+    ntsReplicaMap rfs ring =
+      .ok ((ring.filter (fun e => repl rfs e.2)).map (fun e => (e.1, Spec.nts ring rfs e.1))) := by
+  rw [C10_no_panic]
+  congr 1
+  have hcongr : ntsDesc rfs ring =
+      ((indexed ring).filter (fun p => repl rfs p.2.2)).map (fun p => (p.2.1, Spec.nts ring rfs p.2.1)) := by
+    unfold ntsDesc
+    apply List.map_congr_left
+    intro p hp
+    have hmem : (p.2.1, (ntsReplicasAt (cfgOf rfs ring) ring p.1).replicas) ∈ ntsDesc rfs ring := by
+      unfold ntsDesc
+      exact List.mem_map.mpr ⟨p, hp, rfl⟩
+    have := C10_nts_equal rfs ring hs hkeys _ hmem
+    simp only at this
+    rw [this]
+  rw [hcongr]
+  have h1 : (fun p : Nat × Entry => (p.2.1, Spec.nts ring rfs p.2.1))
+      = (fun e : Entry => (e.1, Spec.nts ring rfs e.1)) ∘ (·.2) := rfl
+  have h2 : (fun p : Nat × Entry => repl rfs p.2.2) = (fun e : Entry => repl rfs e.2) ∘ (·.2) := rfl
+  rw [h1, h2, ← List.map_map, ← List.filter_map, indexed_map_snd]
+
+/-- `C10_nts_lookup`: for every sorted ring, rf map and lookup token `t` (equal to, between, below the smallest, above
+the largest ring token): the replicas the driver associates with `t` — `replicasFor` on the replica map, no replicas when
+it returns nil — are exactly Cassandra's replicas of `t`. -/
+theorem C10_nts_lookup (rfs : List (Nat × Nat)) (ring : List Entry) (t : Int) (hs : Sorted ring)
+    (hkeys : (rfs.map (·.1)).Nodup) :
+    (match ntsReplicaMap rfs ring with
+     | .ok rr => (match replicasFor rr t with
+        | some e => some e.2
+        | none => some [])
+     | .error _ => none) = some (Spec.nts ring rfs t) := by
+  rw [C10_nts_map rfs ring hs hkeys]
+  simp only
+  by_cases hne : ring.filter (fun e => repl rfs e.2) = []
+  · rw [hne, nts_none_retained ring rfs t hne]
+    rfl
+  · rw [replicasFor_map _ (fun e => Spec.nts ring rfs e.1) t (sorted_filter ring _ hs) hne]
+    simp only
+    rw [← nts_at_retained ring rfs t hs hne]
+
+example : (match ntsReplicaMap [(1, 1)] [(0, ⟨1, 1, 1⟩), (10, ⟨2, 3, 1⟩)] with
+     | .ok rr => (replicasFor rr 5).map (·.2)
+     | .error _ => none) = some [⟨1, 1, 1⟩] := by decide
 
 /-! ## regression: the inputs of the repaired findings -/
 
